@@ -103,7 +103,8 @@ class Module(object):
       raise AnalysisError('cannot parse %s: %s' % (relpath, e))
     # variables are identified by role, not by name (sa/roles.py)
     from sa import inline, roles
-    inline.undo_extract_method(relpath, self.tree, repo.role_notes)
+    inline.undo_extract_method(relpath, self.tree, repo.role_notes,
+                               lambda name: repo.mentioned_outside(relpath, name))
     roles.align(relpath, self.tree, repo.role_notes)
     self.funcs = {}
     self.classes = {}
@@ -235,6 +236,24 @@ class Repo(object):
     self._method_index = None
     self._resolve_cache = {}
     self.role_notes = []
+
+  def mentioned_outside(self, relpath, name):
+    """does any other Python file of the pipeline mention `name`?"""
+    import re
+    pat = re.compile(r'\b%s\b' % re.escape(name))
+    cache = self.__dict__.setdefault('_texts', {})
+    for rel in PIPELINE:
+      if rel == relpath:
+        continue
+      if rel not in cache:
+        try:
+          with open(os.path.join(self.root, rel), encoding='utf-8') as f:
+            cache[rel] = f.read()
+        except OSError:
+          cache[rel] = ''
+      if pat.search(cache[rel]):
+        return True
+    return False
 
   def mod(self, relpath):
     if relpath not in self._mods:
